@@ -146,6 +146,31 @@ def apply_site_rewrites(text, rewrites, log, where):
 # functions whose optional proof hints ("?anchor") found no anchor during the current generate() call
 DROPPED_HINTS = []
 
+
+_KEEP_WORDS = {"let", "mut", "if", "else", "match", "return", "for", "while", "in", "loop", "break", "continue", "Some", "None", "Ok", "Err", "self", "Self", "true", "false", "as", "ref"}
+
+
+def _renamed_only(anchor, text):
+    """does `text` still contain the anchor's statement up to a renaming of plain identifiers (locals / receivers)?  Names that are
+    called (`name(`), path segments (`a::b`), receivers (`name.`: the contracts name them anyway), field/method names after a `.` and
+    keywords stay literal."""
+    out, i = [], 0
+    for mt in re.finditer(r"[A-Za-z_]\w*", anchor):
+        out.append(re.escape(anchor[i:mt.start()]))
+        w = mt.group(0)
+        after = anchor[mt.end():mt.end() + 2]
+        before = anchor[max(0, mt.start() - 2):mt.start()]
+        literal = (w in _KEEP_WORDS or after.startswith("(") or after.startswith("::") or after.startswith("!") or after.startswith(".") or before.endswith("::")
+                   or before.endswith(".") or w[0].isupper())
+        out.append(re.escape(w) if literal else r"[A-Za-z_]\w*")
+        i = mt.end()
+    out.append(re.escape(anchor[i:]))
+    pat = "".join(out).replace("\\ ", r"\s*")
+    try:
+        return re.search(pat, text) is not None
+    except re.error:
+        return True
+
 LOOP_RE = re.compile(r"(?<![A-Za-z0-9_.])(while|loop|for)\b")
 
 
@@ -245,7 +270,10 @@ def annotate_fn(text, item: Fn, log, where):
             anchor = anchor[1:]
         occ = [mt.start() for mt in re.finditer(re.escape(anchor), text)]
         if optional and len(occ) != 1 and nth is None:
-            DROPPED_HINTS.append(where)
+            # the hint is dropped.  If its statement is still there up to a renaming of locals, a failed proof is the hint's loss
+            # (UNDECIDED); if the statement is gone, the code changed and the failure is reported as such
+            if len(occ) == 0 and _renamed_only(anchor, text):
+                DROPPED_HINTS.append(where)
             continue
         if nth is None:
             if len(occ) != 1:
@@ -254,7 +282,8 @@ def annotate_fn(text, item: Fn, log, where):
         else:
             if nth >= len(occ):
                 if optional:
-                    DROPPED_HINTS.append(where)
+                    if _renamed_only(anchor, text) and len(occ) == 0:
+                        DROPPED_HINTS.append(where)
                     continue
                 raise AnchorLost(f"{where}: ghost anchor {anchor!r} #{nth} missing")
             o = occ[nth]
